@@ -255,19 +255,19 @@ Definition wit_dyn_val : val := VList [VBytes ["000"%char; "003"%char]].
 Example array_oob_dynamic_elem_witness :
   exists enc p out, arc4_encode wit_dyn_ty wit_dyn_val = Some enc /\ array_elem_plan wit_dyn_ty = Some p /\
                     exec_plan 8 p enc 1 = Some (VB out).
-Proof. do 3 eexists. split; [vm_compute; reflexivity|]. split; vm_compute; reflexivity. Qed.
+Proof. do 3 eexists. split; [vm_compute; reflexivity|]. split; [vm_compute; reflexivity|]. vm_compute. reflexivity. Qed.
 
 (* bool[3] = [true, true, true], index 5: padding bit *)
 Example array_oob_bool_witness :
   exists enc p, arc4_encode (TStaticArray TBool 3) (VList [VBool true; VBool true; VBool true]) = Some enc /\
                 array_elem_plan (TStaticArray TBool 3) = Some p /\ exec_plan 8 p enc 5 = Some (VI 0).
-Proof. do 2 eexists. split; [vm_compute; reflexivity|]. split; vm_compute; reflexivity. Qed.
+Proof. do 2 eexists. split; [vm_compute; reflexivity|]. split; [vm_compute; reflexivity|]. vm_compute. reflexivity. Qed.
 
 (* ()[] = [()], index 1000 *)
 Example array_oob_zero_length_witness :
   exists enc p, arc4_encode (TDynArray (TTuple None [])) (VList [VList []]) = Some enc /\
                 array_elem_plan (TDynArray (TTuple None [])) = Some p /\ exec_plan 8 p enc 1000 = Some (VB []).
-Proof. do 2 eexists. split; [vm_compute; reflexivity|]. split; vm_compute; reflexivity. Qed.
+Proof. do 2 eexists. split; [vm_compute; reflexivity|]. split; [vm_compute; reflexivity|]. vm_compute. reflexivity. Qed.
 
 (* the statement "every out-of-range index makes the extraction fail" is false of the model *)
 Theorem array_oob_refuted :
@@ -292,7 +292,7 @@ Example index_tuple_example :
     option_map (fun p => exec_plan 8 p enc 0) (index_tuple ts 1) = Some (stored TString (VBytes ["h"%char; "i"%char])) /\
     option_map (fun p => exec_plan 8 p enc 0) (index_tuple ts 3) = Some (Some (VI 1)) /\
     option_map (fun p => exec_plan 8 p enc 0) (index_tuple ts 4) = Some (stored (TDynArray (TUint 16)) (VList [VUint 1; VUint 2])).
-Proof. cbv zeta. eexists. split; [vm_compute; reflexivity|]. split; [vm_compute; discriminate|]. repeat split; vm_compute; reflexivity. Qed.
+Proof. cbv zeta. eexists. split; [vm_compute; reflexivity|]. split; [vm_compute; discriminate|]. split; [vm_compute; reflexivity|]. split; vm_compute; reflexivity. Qed.
 
 Example array_elem_example :
   let arr := TDynArray (TTuple None [TBool; TString]) in
@@ -300,4 +300,4 @@ Example array_elem_example :
   exists enc, arc4_encode arr v = Some enc /\
     option_map (fun p => exec_plan 8 p enc 1) (array_elem_plan arr) =
     Some (stored (TTuple None [TBool; TString]) (VList [VBool false; VBytes []])).
-Proof. cbv zeta. eexists. split; vm_compute; reflexivity. Qed.
+Proof. cbv zeta. eexists. split; [vm_compute; reflexivity|]. vm_compute. reflexivity. Qed.
